@@ -128,13 +128,46 @@ Theorem k__jitbin_array_negative_bin_size_refuted :
   exists site, run 200 k__jitbin_array w_bin_array_negative = Err (OOB site).
 Proof. eexists. vm_compute. reflexivity. Qed.
 
-(* 3. _overlap_split is proved safe for interval_size > 0, 0 <= overlap < 1 and start_k <= end_k
-   (Inv/Overlap_split.v).  compute_mean_psd validates overlap but not the sign of interval_size:
-   with interval_size = -1 s, overlap = 0 and the epoch [0, 0.5] the buffer has one row, the scan
-   `t + interval_size < end[k]` never stops, and the second window is written out of bounds. *)
+(* 3. HISTORY (repaired since: the inner loop is now `while t + interval_size < end[k] and n <= N`;
+   the repaired kernel is the one in Gen/Kernels.v, proved safe and terminating whenever start and
+   end have equal lengths, Inv/Overlap_split.v).  Before the repair _overlap_split was proved safe
+   only for interval_size > 0, 0 <= overlap < 1 and start_k <= end_k.  compute_mean_psd validates
+   overlap but not the sign of interval_size: with interval_size = -1 s, overlap = 0 and the epoch
+   [0, 0.5] the buffer has one row, the scan `t + interval_size < end[k]` never stopped, and the
+   second window was written out of bounds.  On the repaired kernel the same arguments return the
+   one-row buffer. *)
+(* the kernel as translated from the source BEFORE the repair (inner loop without `and n <= N`);
+   frozen here because Gen/Kernels.v follows the current source *)
+(* _overlap_split: pynapple/process/spectrum.py:18  sites = 5
+   labels: 0 = outer while (epochs), 1 = inner while (windows) *)
+Definition k__overlap_split_before_fix : func :=
+  mkFunc "_overlap_split"
+  ["start"; "end"; "interval_size"; "overlap"]
+  ["N"; "slices"; "k"; "n"; "t"; "_t0"]
+  (seq [SAssign "N" (EUn ToInt (EUn Ceil (EBin Div (ESumDiff 0%nat "end" "start") (EBin Mul (EVar "interval_size") (EBin Sub (EInt (1)%Z) (EVar "overlap"))))));
+SNew2 "slices" DFlt (EBin Add (EVar "N") (EInt (1)%Z)) (EInt (2)%Z) (EInt (0)%Z);
+SAssign "k" (EInt (0)%Z);
+SAssign "n" (EInt (0)%Z);
+SWhile 0%nat (ECmp Lt (EVar "k") (ELen "start"))
+ (seq [SAssign "t" (ERead1 1%nat "start" (EVar "k"));
+SWhile 1%nat (ECmp Lt (EBin Add (EVar "t") (EVar "interval_size")) (ERead1 2%nat "end" (EVar "k")))
+ (seq [SStore2 3%nat "slices" (EVar "n") (EInt (0)%Z) (EVar "t");
+SStore2 4%nat "slices" (EVar "n") (EInt (1)%Z) (EBin Add (EVar "t") (EVar "interval_size"));
+SAssign "t" (EBin Add (EVar "t") (EBin Mul (EBin Sub (EInt (1)%Z) (EVar "overlap")) (EVar "interval_size")));
+SAssign "n" (EBin Add (EVar "n") (EInt (1)%Z))]);
+SAssign "k" (EBin Add (EVar "k") (EInt (1)%Z))]);
+SSlice "_t0" "slices" (EInt (0)%Z) (EVar "n");
+SReturn [AVar "_t0"]]).
+
 Definition w_overlap_negative : list value :=
   [Ar (A1 DFlt [fl 0 1]); Ar (A1 DFlt [fl 1 2]); Sc (fl (-1) 1); Sc (fl 0 1)].
 
 Theorem k__overlap_split_negative_interval_size_refuted :
-  exists site, run 200 k__overlap_split w_overlap_negative = Err (OOB site).
+  exists site, run 200 k__overlap_split_before_fix w_overlap_negative = Err (OOB site).
 Proof. eexists. vm_compute. reflexivity. Qed.
+
+(* the repaired kernel on the same arguments: one window [0, -1], no error *)
+Theorem k__overlap_split_negative_interval_size_repaired :
+  run 200 k__overlap_split w_overlap_negative
+  = Return [Ar (A2 DFlt 1 2 [fl 0 1; fl (-1) 1])].
+Proof. vm_compute. reflexivity. Qed.
